@@ -17,7 +17,7 @@ CHECKS = {
     'C01': "Proved (all inputs): C01_conformance - for every token tree with valid class ranges and ordered bounds in the decidable class trees_exact, the program the "
            "encoder emits matches a text iff the text is in the documented language Lang (expansions + flat-position semantics, stated without regexes); per-leaf "
            "statements (`?`, `*`/`$`, classes independent of the case-folding relation, lone tree wildcard = every text incl. newline). Tie: token tree, regex text, "
-           "is_match vs the extracted model. Oracle: is_match vs the executable Spec.spec_match; outside trees_exact only the three named known classes are tolerated.",
+           "is_match vs the extracted model engine, which is itself proved to decide the language sem (C01_model_engine_decides_the_language: sound, fuel adequate), so the differential test validates sem against the regex crate. Oracle: is_match vs the executable Spec.spec_match; outside trees_exact only the three named known classes are tolerated.",
     'C04': "Proved: the compiled program has exactly one group per capturing token of the top-level concatenation and none for nested tokens; wildcard groups are "
            "separator-free. Tie: captures() and every capture span (borrowed/owned, indices 0..n+1) vs the model's leftmost-first matcher. Oracle: ordering, disjointness, "
            "separator-freeness, complete components, re-match of each capture by its own sub-expression.",
